@@ -161,6 +161,17 @@ def run(ctx):
   in_loop = [a for a in rec if (a.func is pc and in_subtree(a.node, stmt_loop)) or a.func is not pc]
   ctx.check(bool(rec), 'C16.no-deferred', pcon, 'processed imports are recorded in the import set (%d site)' % len(rec),
             'processed import statements are no longer recorded', pc.loc(), instance='imports-recorded')
+  # ... and only once the import has been processed successfully
+  g_pc, f_pc = std_facts(prog, pc)
+  for a in rec:
+    if a.func is not pc:
+      continue
+    st = enclosing_stmt(a.node)
+    fs = facts_at(g_pc, f_pc, st) or frozenset()
+    done = ('call', 'config.ParseContext.process_import') in fs
+    ctx.check(done, 'C16.no-deferred', pcon, 'an import is recorded only after it was processed successfully',
+              'the import is recorded before (or without) process_import having succeeded: a failing or skipped import statement leaves a trace '
+              'in the recorded imports, so the state after the failure is not "the prefix applied"', pc.loc(a.node), instance='record-after-success')
 
   # ---- located: parser side
   cp = 'config_parser.ConfigParser.'
@@ -237,6 +248,12 @@ def run(ctx):
     ctx.check(esc is None, 'C16.type', construct(tw), 'the handler always re-raises (SyntaxError as is, others augmented)',
               'the handler can complete normally: a semantic error would be swallowed', tw.loc(h.ast), instance='handler-reraises',
               path=describe_path(g, esc) if esc else None)
+  g_tw, f_tw = std_facts(prog, tw)
+  bare = [n for n in g_tw.live_nodes() if n.kind == 'raise_stmt' and n.ast.exc is None]
+  okb = all(any(fct[0] == 'c' and fct[2] is True and fct[1].replace(' ', '').startswith('isinstance(') and 'SyntaxError' in fct[1] for fct in f_tw[n.id]) for n in bare)
+  ctx.check(okb, 'C16.type', construct(tw), 'only a SyntaxError is re-raised without the location being added',
+            'an exception other than SyntaxError can be re-raised without adding this level\'s location: an error inside an included file '
+            'would no longer name each level of the include chain', tw.loc(bare[0].ast) if bare else tw.loc(), instance='every-level')
   syn = [n for n in walk_local(tw.node) if isinstance(n, ast.If) and 'SyntaxError' in u(n.test)
          and isinstance(n.body[-1], ast.Raise) and n.body[-1].exc is None]
   ctx.check(bool(syn), 'C16.type', construct(tw), 'SyntaxError passes through un-wrapped', 'SyntaxError is no longer passed through unchanged',
